@@ -52,7 +52,8 @@ static Plan gen_corrupt(const std::string &prop, const std::string &tier, uint64
 			else if (k < 60) p.op("magic", { std::to_string(r.below(4)), std::to_string(r.below(1u << 30)), v });
 			else if (k < 82) p.op("idxlen", { std::to_string(r.below(14)), std::to_string(r.below(1u << 30)), v });
 			else if (k < 88) p.op("random", { std::to_string(r.below(2049)), std::to_string(r.below(1u << 30)), std::to_string(r.below(3)), v });
-			else if (k < 94) p.op("trailerflip", { std::to_string(r.below(1u << 30)), std::to_string(1 + r.below(4)), v });
+			else if (k < 91) p.op("tiny", { std::to_string(512 + r.below(40)), std::to_string(r.below(1u << 30)), std::to_string(r.below(12)), v });
+			else if (k < 95) p.op("trailerflip", { std::to_string(r.below(1u << 30)), std::to_string(1 + r.below(4)), v });
 			else p.op("cutmiddle", { std::to_string(r.below(1u << 30)), v });
 		}
 	}
@@ -226,7 +227,18 @@ static RunResult exec_corrupt(const Plan &p)
 	}
 	mfmt::DecodeOpts dopt; dopt.start = b.pre.size(); dopt.writer_rules = false;
 	mfmt::decode(b.file, dopt, b.df);
-	if (b.df.fatal || !b.df.errors.empty()) { res.fail("INFRA", "base-undecodable", b.df.errors.empty() ? "?" : b.df.errors[0]); return res; }
+	if (b.df.fatal) {
+		// the independent decoder cannot locate the blocks of the base file (a broken writer, not a harness problem):
+		// the intact-file checks still run, fault placement is impossible and the run is counted as unjudged
+		res.unjudged["base-file-undecodable"]++;
+		for (auto &o : p.ops) if (o.name == "intact") {
+			Bytes out, err;
+			int st = run_cmd({ tool_path("mtbl_verify"), path }, &out, &err);
+			if (st != 0 || out.find(": OK") == Bytes::npos) res.fail("MODEL", "VERIFY-TOOL-rejects-intact", "mtbl_verify does not report OK (exit " + std::to_string(st) + ") for a file straight from the writer");
+		}
+		return res;
+	}
+	if (!b.df.errors.empty()) res.probes["base-file-has-format-errors"]++;
 	for (size_t i = 0; i < b.df.data.size(); i++) for (auto &e : b.df.data[i].entries) b.blk_of[e.key] = (int)i;
 	int nb = (int)b.df.data.size();
 	res.ev.u(b.file.size()); res.ev.u(nb);
@@ -346,6 +358,18 @@ static RunResult exec_corrupt(const Plan &p)
 				wr64le(dam, n - 512, style == 2 ? r.below(n) : r.below(n > 525 ? n - 525 : 1));
 			}
 			res.faults["random-file"]++;
+			open_damaged(dpath, dam, o.argi(3), opi & 1, res);
+		} else if (o.name == "tiny") {
+			// a bare trailer (or a trailer preceded by fewer bytes than a minimal index block) with a valid magic
+			size_t n = (size_t)o.argi(0);
+			if (n < 512) n = 512;
+			Bytes dam(n, '\0');
+			for (size_t i = 0; i + 512 < n; i++) dam[i] = (char)r.below(256);
+			for (size_t i = 0; i < 72; i++) dam[n - 512 + i] = (char)r.below(256);
+			static const uint64_t offs[] = { 0, 1, 12, 13, 16, 1ull << 47, 1ull << 62, ~0ull, ~0ull - 511, ~0ull - 524, 511, 512 };
+			wr64le(dam, n - 512, offs[(size_t)o.argi(2) % 12]);
+			wr32le(dam, n - 4, r.chance(1, 2) ? 0x4D54424Cu : 0x77846676u);
+			res.faults["tiny-file"]++;
 			open_damaged(dpath, dam, o.argi(3), opi & 1, res);
 		} else if (o.name == "trailerflip") {
 			Bytes dam = b.file;
